@@ -49,9 +49,13 @@ type Contract struct {
 	Requires  []*SExpr
 	Ensures   []*SExpr
 	EnsSrc    []string
+	EnsProp   []string // per-clause property restriction ("" = every property the block is tagged with)
+	GoEnsProp []string
+	GoEnsures []*SExpr // evaluated at the normal end of every goroutine the function spawns
 	NoPanic   bool
 	NoEscape  bool
 	GoSafe    bool // spawn rule: no panic may escape a goroutine started by this function
+	AssumeNoPanic bool
 	Safe      bool // implicit panic sites of the function's own code are obligations; callee panics propagate
 	Pure      bool
 	Uses      []string
@@ -213,11 +217,8 @@ func (cs *ContractSet) loadFile(path, pkgPath string) error {
 			cur.Results = splitNames(m[3])
 			cur.Props = splitNames(m[4])
 			if word == "family" {
-				re, err := regexp.Compile("^(?:" + m[1] + ")$")
-				if err != nil {
-					return fail(i, "bad family regexp: %v", err)
-				}
-				cur.Family = re
+				// family <kind> [props]: contract of every generated function classified as <kind> (family.go)
+				cur.Family = regexp.MustCompile(".*")
 				cur.Key = "family:" + m[1]
 				for _, kv := range strings.Fields(m[5]) {
 					if strings.HasPrefix(kv, "kind=") {
@@ -261,6 +262,11 @@ func (cs *ContractSet) loadFile(path, pkgPath string) error {
 			}
 			switch word {
 			case "requires", "ensures":
+				only := ""
+				if strings.HasPrefix(rest, "@") {
+					only, rest, _ = strings.Cut(rest[1:], " ")
+					rest = strings.TrimSpace(rest)
+				}
 				x, err := parse(rest)
 				if err != nil {
 					return err
@@ -270,7 +276,20 @@ func (cs *ContractSet) loadFile(path, pkgPath string) error {
 				} else {
 					cur.Ensures = append(cur.Ensures, x)
 					cur.EnsSrc = append(cur.EnsSrc, rest)
+					cur.EnsProp = append(cur.EnsProp, only)
 				}
+			case "goensures":
+				only := ""
+				if strings.HasPrefix(rest, "@") {
+					only, rest, _ = strings.Cut(rest[1:], " ")
+					rest = strings.TrimSpace(rest)
+				}
+				x, err := parse(rest)
+				if err != nil {
+					return err
+				}
+				cur.GoEnsures = append(cur.GoEnsures, x)
+				cur.GoEnsProp = append(cur.GoEnsProp, only)
 			case "noescape":
 				cur.NoEscape = true
 			case "nopanic":
@@ -284,6 +303,10 @@ func (cs *ContractSet) loadFile(path, pkgPath string) error {
 						cur.Modifies = append(cur.Modifies, f)
 					}
 				}
+			case "assumenopanic":
+				// callers may rely on the function not panicking although this is not proved here
+				cur.AssumeNoPanic = true
+				cs.Assumes = append(cs.Assumes, fmt.Sprintf("%s: assumed not to panic (%s)", cur.Key, rest))
 			case "safe":
 				cur.Safe = true
 			case "stable":
